@@ -18,14 +18,14 @@ theorem update_no_panic (w : World) (s : State) (k : Nat) (h : Inv s) :
   exact update_inv w s k h
 
 /-- The state after start-up satisfies the invariant, whatever the world serves. -/
-theorem start_inv (w : World) (context : Nat) (arg : Str) :
-    ∃ s, start w context arg = .ok s ∧ Inv s ∧ s.mode = .normal := by
-  exact start_aux w context arg
+theorem start_inv (w : World) (context : Nat) (arg : Str) (feeds : List (Str × List Str)) :
+    ∃ s, start w context arg feeds = .ok s ∧ Inv s ∧ s.mode = .normal := by
+  exact start_aux w context arg feeds
 
 /-- Hence every key history from start-up runs without panic. -/
-theorem run_no_panic (w : World) (context : Nat) (arg : Str) (keys : List Nat) :
-    ∃ s0 s, start w context arg = .ok s0 ∧ run w s0 keys = .ok s ∧ Inv s := by
-  obtain ⟨s0, e0, i0, _⟩ := start_aux w context arg
+theorem run_no_panic (w : World) (context : Nat) (arg : Str) (feeds : List (Str × List Str)) (keys : List Nat) :
+    ∃ s0 s, start w context arg feeds = .ok s0 ∧ run w s0 keys = .ok s ∧ Inv s := by
+  obtain ⟨s0, e0, i0, _⟩ := start_aux w context arg feeds
   obtain ⟨s, e, i⟩ := run_inv w keys s0 i0
   exact ⟨s0, s, e0, e, i⟩
 
@@ -96,6 +96,16 @@ theorem space_opens (w : World) (s s' : State) (hi : Inv s) (hm : s.mode = .norm
     cases hs
     obtain ⟨a, b, c⟩ := e2.2 hok
     exact ⟨a, b, c, by rw [e3, hm]⟩
+
+/-- `:feed <name>` with a configured feed opens exactly one new page (the merged feed) and
+    returns to normal mode; with an unknown name it only returns to normal mode. -/
+theorem feed_command (w : World) (s s' : State) (name : Str) (hi : Inv s) (hm : s.mode ≠ .loading)
+    (hs : subcommand w s "feed".toList name = .ok s') :
+    s'.mode = .normal ∧ s'.buffer = [] ∧
+    ((s.feeds.find? (fun f => f.1 = name)).isNone → s'.hist = s.hist) ∧
+    ((s.feeds.find? (fun f => f.1 = name)).isSome →
+       s'.hist.index = s.hist.index + 1 ∧ s'.hist.elements.length = s.hist.index + 2) := by
+  exact subcommand_feed w s s' name (hi.1 hm) hs
 
 /-- Digits enter selection mode and accumulate; a digit string is what selection mode holds. -/
 theorem digit_selects (w : World) (s : State) (d : Nat) (hm : s.mode = .normal) (hd : '0'.toNat ≤ d ∧ d ≤ '9'.toNat) :
